@@ -38,7 +38,7 @@ def spec(th, seed):
                  'magnitudes, decimal grid, small integers) with epsilon drawn around |fl(x-y)|.'),
         'assumptions': [
             'oracle = integer arithmetic on the monotone index of the IEEE order (sign-magnitude bit pattern -> signed integer, +0 and -0 both 0), 64/128-bit; no glm code',
-            'stepping: finite x only; a result that is zero is accepted with either sign; nextFloat(+max)/prevFloat(-max) accept +-inf or x (no finite value beyond); n >= 0',
+            'stepping: finite x only; a result that is zero is accepted with either sign; nextFloat(+max)/prevFloat(-max) accept +-inf or x (no finite value beyond); n >= 0; "n-step equals n single steps" is value equality (same position in the IEEE order, +0 == -0)',
             'ULP comparisons: finite x,y, 0 <= maxULPs <= INT_MAX; notEqual(x,y,ULPs) is judged as the negation of the stated equal() relation',
             'epsilon comparisons: finite x,y, finite epsilon >= +0; |x-y| <= epsilon is evaluated with the rounded difference fl(x-y) and, when |fl(x-y)| == epsilon, with the exact difference recovered by TwoSum; when the two readings differ either answer is accepted',
             'floatDistance is only judged in the stated form floatDistance(x, nextFloat(x, n)) with a finite result of nextFloat',
